@@ -3,7 +3,7 @@ C15 — TPuts strips only padding; TGoto and TColor are right for every terminal
 Models: Tcell.Model.TPuts (TPuts / TGoto / TColor of terminfo.go:596-675), Tcell.Model.TParm.
 References: Tcell.Spec.TermCaps (padding grammar, addressing conventions, SGR decoder).
 -/
-import Tcell.Lemmas.TParm
+import Tcell.Lemmas.Cup
 import Tcell.Gen.TerminfoDB
 namespace Tcell.Props.C15
 open Tcell Tcell.TParm Tcell.TPuts Tcell.Spec.TermCaps
@@ -41,28 +41,6 @@ ever taken, whatever the string. -/
 theorem delay_only_with_padchar (st : Bool) (s : Bytes) : (tputsV st [] s).delays = [] :=
   tputsAux_delays_nil st _ s {} rfl
 
-theorem findMarker_split (s pre post : Bytes) (h : findMarker s = some (pre, post)) :
-    s = pre ++ 36 :: 60 :: post := by
-  induction s generalizing pre with
-  | nil => simp [findMarker] at h
-  | cons b r ih =>
-    simp only [findMarker] at h
-    split at h
-    · rename_i hb
-      simp only [Bool.and_eq_true, beq_iff_eq] at hb
-      simp only [Option.some.injEq, Prod.mk.injEq] at h
-      obtain ⟨rfl, rfl⟩ := h
-      cases r with
-      | nil => simp at hb
-      | cons c r' => simp at hb; simp [hb.1, hb.2]
-    · cases hf : findMarker r with
-      | none => simp [hf] at h
-      | some pp =>
-        obtain ⟨p1, p2⟩ := pp
-        simp only [hf, Option.some.injEq, Prod.mk.injEq] at h
-        obtain ⟨rfl, rfl⟩ := h
-        simp [ih p1 hf]
-
 /-- A string without `$<` is written unchanged. -/
 theorem no_marker_identity (st : Bool) (pad s : Bytes) (h : findMarker s = none) : (tputsV st pad s).bytes = s := by
   simp [tputsV, tputsAux, h]
@@ -77,45 +55,37 @@ theorem unterminated_verbatim (st : Bool) (pad s pre post : Bytes) (h : findMark
 example : (tputsV false [] [97,36,60,53]).bytes = [97,36,60,53] :=
   unterminated_verbatim false [] _ [97] [53] (by decide) (by decide)
 
-theorem matchPad_none_of (b : Nat) (r : Bytes) (h : ¬ (b = 36 ∧ r.head? = some 60)) : matchPad (b :: r) = none := by
-  unfold matchPad
-  split
-  · rename_i heq
-    simp only [List.cons.injEq] at heq
-    obtain ⟨rfl, rfl⟩ := heq
-    exact absurd ⟨rfl, by simp⟩ h
-  · rfl
+/-- **`tputs_spec`**: for EVERY byte string `s` and any pad character, the bytes the repaired TPuts (terminfo.go
+596-644 at /repo HEAD: `strings.Index` for `$<`, then for `>`, `isPadding`) writes are exactly `s` with every
+well-formed padding specification `$< digit+ [. digit*] (*|/)* >` removed, as the grammar-directed reference
+`stripPadding` defines it: a `$<…>` whose content is not a padding specification stays, an unterminated `$<` stays,
+scanning resumes right after a kept `$<` (so `$<$<5>` loses only the inner specification).  For the pinned code the
+statement is false (`tputs_nonpadding_counterexample`). -/
+theorem tputs_spec (pad s : Bytes) : (tputsV true pad s).bytes = stripPadding s := by
+  have := tputsAux_bytes pad (s.length + 1) s {} (Nat.lt_succ_self _)
+  simpa [tputsV] using this
 
-theorem strip_no_marker (s : Bytes) (f : Nat) (hf : s.length ≤ f) (h : findMarker s = none) : stripAux f s = s := by
-  induction s generalizing f with
-  | nil => cases f <;> simp [stripAux]
-  | cons b r ih =>
-    cases f with
-    | zero => simp at hf
-    | succ f =>
-      simp only [findMarker] at h
-      split at h
-      · simp at h
-      · rename_i hb
-        have hb' : ¬ (b = 36 ∧ r.head? = some 60) := by simpa using hb
-        have hr : findMarker r = none := by
-          cases hfm : findMarker r with
-          | none => rfl
-          | some p => simp [hfm] at h
-        simp only [stripAux, matchPad_none_of b r hb']
-        rw [ih f (by simp at hf; omega) hr]
+example : (tputsV true [0] [36,60,36,60,53,62,120,36,60,49,46,62,36,60,46,62]).bytes = [36,60,120,36,60,46,62] := by decide
 
-/-- PARTIAL `tputs_spec` (`(TPuts s).bytes = stripPadding s`): proved for every string without a `$<` – there both the
-code (pinned or repaired, any pad character) and the reference leave the string unchanged.  Not proved: strings with
-markers (for the pinned code the statement is false, `tputs_nonpadding_counterexample`; for the repaired code and for
-strings whose every `$<…>` is a padding specification it is checked by the differential correspondence and the
-reference oracle on ~20 000 / 500 000 generated strings per run); `output_is_subsequence` is not proved either. -/
-theorem tputs_spec_partial (st : Bool) (pad s : Bytes) (h : findMarker s = none) :
-    (tputsV st pad s).bytes = stripPadding s := by
-  rw [no_marker_identity st pad s h, stripPadding, strip_no_marker s _ (Nat.le_refl _) h]
+/-- the same for the model variant that mirrors the tree under check -/
+theorem tputs_spec_current (pad s : Bytes) : (tputs pad s).bytes = stripPadding s := tputs_spec pad s
 
-example : (tputsV false [0] [27,91,72,36,62,60]).bytes = stripPadding [27,91,72,36,62,60] :=
-  tputs_spec_partial false [0] _ (by decide)
+/-- what TPuts writes is a subsequence of the string (it only ever removes bytes) -/
+theorem output_is_subsequence (pad s : Bytes) : ((tputsV true pad s).bytes).Sublist s := by
+  rw [tputs_spec]; exact strip_sublist s
+
+/-- on a terminal with a pad character the delays TPuts sleeps are, in order, those of exactly the padding
+specifications the reference grammar recognises (`padSpecs`), each converted by the code's `n[.m]` ms arithmetic
+(`delayOf`: digits accumulate, every digit after the dot divides the unit by ten) -/
+theorem tputs_delays (pad s : Bytes) (h : pad ≠ []) :
+    (tputsV true pad s).delays = (padSpecs s).map delayOf := by
+  have hp : pad.isEmpty = false := by cases pad <;> simp_all
+  have := tputsAux_delays pad hp (s.length + 1) s {} (Nat.lt_succ_self _)
+  simpa [tputsV] using this
+
+example : (tputsV true [0] [97,36,60,53,62,98,36,60,120,62,36,60,49,46,53,42,62]).delays = [5000000, 1500000] ∧
+    padSpecs [97,36,60,53,62,98,36,60,120,62,36,60,49,46,53,42,62] = [[53], [49,46,53,42]] := by decide
+
 /-! ### TGoto: closed forms of every distinct SetCursor program of the database -/
 
 /-- `ESC [ %i %p1 %d ; %p2 %d H` -/
@@ -201,13 +171,110 @@ theorem db_cursor_family : ∀ e ∈ Gen.db, stripPadding e.setCursor = cupOf (f
   intro e he
   simpa using List.all_eq_true.mp h e he
 
-/-- decoder round trip on boundary positions of every family (kernel evaluation; the general statement needs the
-decimal round-trip lemma and is not proved – the per-family decoders are exercised on all of 0..300 x 0..300 by
-the oracle in the thorough tier) -/
-theorem decode_encode_sample_partial :
-    ([CupFamily.ansi, .vt52, .wyse, .hp].all fun fam => [0,1,9,10,99,100,223,224,255,256,299,300].all fun r =>
-      [0,1,9,10,99,100,223,224,255,256,299,300].all fun c =>
-        !fam.expressible r c || fam.decode (fam.encode r c) == some (r, c)) = true := by decide +kernel
+/-- every per-family decoder inverts the convention's encoder, for ALL rows and columns (no bound) -/
+theorem decode_encode_all (fam : CupFamily) (row col : Nat) : fam.decode (fam.encode row col) = some (row, col) :=
+  decode_encode fam row col
+
+/-- each entry's (SetCursor program, convention of its name) is one of six known pairs -/
+def knownCupFam : List (Bytes × CupFamily) :=
+  [(cupAnsi, .ansi), (cupAnsi ++ [36,60,53,62], .ansi), (cupAnsi ++ [36,60,49,48,62], .ansi),
+   (cupHp, .hp), (cupVt52, .vt52), (cupWyse, .wyse)]
+
+theorem db_cursor_known_family : ∀ e ∈ Gen.db, (e.setCursor, familyOfName e.name) ∈ knownCupFam := by
+  have h : (Gen.db.all fun e => knownCupFam.contains (e.setCursor, familyOfName e.name)) = true := by decide +kernel
+  intro e he
+  simpa using List.all_eq_true.mp h e he
+
+theorem strip_four (a b : Nat) (x y : Nat) (hx : x ≠ 36) (hy : y ≠ 36) : stripPadding [x, y, a, b] = [x, y, a, b] := by
+  have h3 : matchPad [a, b] = none := by
+    unfold matchPad
+    split
+    · rename_i r heq
+      simp only [List.cons.injEq] at heq
+      obtain ⟨_, _, rfl⟩ := heq
+      rfl
+    · rfl
+  rw [strip_cons, matchPad_none_of' x _ (by intro h; exact hx h.1)]
+  simp only
+  rw [strip_cons, matchPad_none_of' y _ (by intro h; exact hy h.1)]
+  simp only
+  rw [strip_cons, h3]
+  simp only
+  rw [strip_cons, matchPad_none_of' b [] (by simp)]
+  rfl
+
+theorem digits_no36 (n : Nat) : ∀ b ∈ natDigits n, b ≠ 36 := by
+  intro b hb
+  have := (isDigit_iff b).mp (natDigits_digits n b hb)
+  omega
+
+/-- **TGoto, general statement.**  For every built-in entry and EVERY position the entry's addressing convention can
+express (ANSI and HP: all rows/columns a Go `int` can hold after the 1-based shift, i.e. `< 2^63 - 1`; the offset-32
+conventions VT52 / Wyse: `row, col < 224`), the bytes that reach the terminal for `TGoto(col,row)` (capability output
+with the padding removed) are exactly the string the convention defines for that position … -/
+theorem tgoto_is_encode : ∀ e ∈ Gen.db, ∀ (row col : Nat) (sv : Vars),
+    (familyOfName e.name).expressible row col = true → row < 9223372036854775807 → col < 9223372036854775807 →
+    stripPadding (tgoto e (col : Int) (row : Int) sv).1 = (familyOfName e.name).encode row col := by
+  intro e he row col sv hx hr hc
+  have hk := db_cursor_known_family e he
+  have hr1 : wrap64 ((row : Int) + 1) = ((row + 1 : Nat) : Int) := by
+    rw [ansi_param _ (by omega) (by unfold maxInt64; omega)]; omega
+  have hc1 : wrap64 ((col : Int) + 1) = ((col + 1 : Nat) : Int) := by
+    rw [ansi_param _ (by omega) (by unfold maxInt64; omega)]; omega
+  have hansi : ∀ b ∈ [27, 91] ++ natDigits (row + 1) ++ [59] ++ natDigits (col + 1) ++ [72], b ≠ 36 := by
+    intro b hb
+    simp only [List.mem_append, List.mem_cons, List.mem_singleton, List.not_mem_nil, or_false] at hb
+    rcases hb with (((hb | hb) | hb) | hb) | hb
+    · omega
+    · exact digits_no36 _ b hb
+    · omega
+    · exact digits_no36 _ b hb
+    · omega
+  generalize hfam : familyOfName e.name = fam at hk hx
+  simp only [knownCupFam, List.mem_cons, Prod.mk.injEq, List.not_mem_nil, or_false] at hk
+  simp only [tgoto, tparm]
+  rcases hk with ⟨hp, rfl⟩ | ⟨hp, rfl⟩ | ⟨hp, rfl⟩ | ⟨hp, rfl⟩ | ⟨hp, rfl⟩ | ⟨hp, rfl⟩
+  · rw [hp, cup_ansi, hr1, hc1, itoa_nonneg, itoa_nonneg]
+    exact strip_no36 _ hansi
+  · rw [hp, cup_ansi_pad5, hr1, hc1, itoa_nonneg, itoa_nonneg, strip_append_no36 _ _ hansi]
+    simp only [CupFamily.encode, show stripPadding [36,60,53,62] = [] by decide, List.append_nil]
+  · rw [hp, cup_ansi_pad10, hr1, hc1, itoa_nonneg, itoa_nonneg, strip_append_no36 _ _ hansi]
+    simp only [CupFamily.encode, show stripPadding [36,60,49,48,62] = [] by decide, List.append_nil]
+  · rw [hp, cup_hp, itoa_nonneg, itoa_nonneg]
+    apply strip_no36
+    intro b hb
+    simp only [List.mem_append, List.mem_cons, List.mem_singleton, List.not_mem_nil, or_false] at hb
+    rcases hb with ((((hb | hb | hb) | hb) | hb) | hb) | hb
+    · omega
+    · omega
+    · omega
+    · exact digits_no36 _ b hb
+    · omega
+    · exact digits_no36 _ b hb
+    · omega
+  · simp only [CupFamily.expressible, Bool.and_eq_true, decide_eq_true_eq] at hx
+    rw [hp, cup_vt52, offset32_byte _ (by omega) (by omega), offset32_byte _ (by omega) (by omega)]
+    simp only [Int.toNat_natCast, CupFamily.encode]
+    exact strip_four _ _ 27 89 (by decide) (by decide)
+  · simp only [CupFamily.expressible, Bool.and_eq_true, decide_eq_true_eq] at hx
+    rw [hp, cup_wyse, offset32_byte _ (by omega) (by omega), offset32_byte _ (by omega) (by omega)]
+    simp only [Int.toNat_natCast, CupFamily.encode]
+    exact strip_four _ _ 27 61 (by decide) (by decide)
+
+/-- … and hence the decoder of the entry's convention reads back exactly `(row, col)`:
+`decodeFamily (TGoto col row) = (col, row)` for all expressible positions of every built-in terminal
+(this replaces the sampled `decode_encode_sample_partial`). -/
+theorem tgoto_decode : ∀ e ∈ Gen.db, ∀ (row col : Nat) (sv : Vars),
+    (familyOfName e.name).expressible row col = true → row < 9223372036854775807 → col < 9223372036854775807 →
+    (familyOfName e.name).decode (stripPadding (tgoto e (col : Int) (row : Int) sv).1) = some (row, col) := by
+  intro e he row col sv hx hr hc
+  rw [tgoto_is_encode e he row col sv hx hr hc]
+  exact decode_encode _ row col
+
+/-- the hypotheses are satisfiable: the database has entries of every convention, and (4, 28) – whose VT52 encoding
+`ESC Y $ <` even contains the bytes of a padding marker – is expressible -/
+example : ([CupFamily.ansi, .vt52, .wyse, .hp].all fun fam => Gen.db.any fun e => familyOfName e.name == fam) = true
+    ∧ CupFamily.vt52.expressible 4 28 = true ∧ CupFamily.vt52.encode 4 28 = [27, 89, 36, 60] := by decide +kernel
 
 /-! ### TColor (terminfo.go:654-675) -/
 
